@@ -5,6 +5,7 @@
 #[allow(dead_code, unused_imports, clippy::all)]
 #[path = "/repo/blots-wasm/src/lib.rs"]
 mod wasm_driver;
+mod x01;
 
 mod c01;
 mod c02;
@@ -112,6 +113,7 @@ fn main() {
                     "c11" => c11::replay(c),
                     "c13" => c13::replay(c, &setup),
                     "c14" => c14::replay(c),
+                    "x01" => x01::replay(c),
                     "c16" => c16::replay(c),
                     "c17" => c17::replay(c),
                     "c20" => c20::replay(c),
